@@ -21,14 +21,17 @@ import (
 	"context"
 	"fmt"
 	"io"
+	"math/rand/v2"
 	"runtime"
 	"sort"
 	"sync"
 	"testing"
+	"time"
 
 	"github.com/klauspost/compress/zstd"
 	"github.com/restic/restic/internal/backend"
 	"github.com/restic/restic/internal/backend/mem"
+	"github.com/restic/restic/internal/repository/index"
 	"github.com/restic/restic/internal/repository/pack"
 	"github.com/restic/restic/internal/restic"
 	"github.com/restic/restic/internal/verifkit"
@@ -142,10 +145,18 @@ func TestVerifC16DuplicateStorm(t *testing.T) {
 		t.Fatal(err)
 	}
 	defer dec.Close()
+	origFull := index.Full
+	defer func() { index.Full = origFull }()
 
 	rapid.Check(t, func(t *rapid.T) {
 		ctx := context.Background()
 		version := uint(rapid.SampledFrom([]int{1, 2, 2}).Draw(t, "version"))
+		// a fraction of the cases: packs and intermediate index files are uploaded in the middle of the session
+		if rapid.IntRange(0, 11).Draw(t, "midSessionUploads") == 0 {
+			defer func() { index.Full = origFull }()
+			vMidSessionCaseC16(t, st, dec, version)
+			return
+		}
 		// stronger zstd levels only cost table initialisation here
 		comp := rapid.SampledFrom([]CompressionMode{CompressionOff, CompressionFastest, CompressionFastest, CompressionAuto}).Draw(t, "compression")
 		be := mem.New()
@@ -384,4 +395,254 @@ func TestVerifC16DuplicateStorm(t *testing.T) {
 			st.Sample(map[string]any{"case": desc, "submissions_per_blob": count, "not_known_per_blob": notKnown, "packs": len(occ)})
 		}
 	})
+}
+
+// ---------------------------------------------------------------------------
+// Variant: uploads in the middle of the session.
+//
+// Blobs of 1-2 MiB with the minimum pack size make several packs finish before the final
+// flush; index.Full (the exported hook; in production: 50000 blobs or 10 minutes) reports an
+// index as full from k blobs on, so finished packs trigger intermediate index files. The
+// backend delays the Save of an index file until a later pack Save has completed (plus a few
+// ms, or 50 ms at most): a slow index upload that overlaps with the completion of another
+// pack upload. After every blob was submitted once, all savers resubmit all blobs inside the
+// SAME session: each resubmission must be answered "known", and the decrypt-walk must find
+// every blob exactly once with exactly one index entry.
+
+type vGateBeC16 struct {
+	backend.Backend
+	mu         sync.Mutex
+	packDone   chan struct{} // closed and replaced whenever a pack Save completes
+	inflight   int
+	indexSaves int
+	packSaves  int
+	overlapped int // index Saves that were still in flight when a later pack Save completed
+}
+
+func (b *vGateBeC16) Save(ctx context.Context, h backend.Handle, rd backend.RewindReader) error {
+	b.mu.Lock()
+	b.inflight++
+	wait := b.packDone
+	b.mu.Unlock()
+	defer func() {
+		b.mu.Lock()
+		b.inflight--
+		b.mu.Unlock()
+	}()
+	switch h.Type {
+	case backend.IndexFile:
+		select {
+		case <-wait:
+			b.mu.Lock()
+			b.overlapped++
+			b.mu.Unlock()
+			// the other uploader goes on (StorePack of its pack) while this upload is still not done
+			time.Sleep(5 * time.Millisecond)
+		case <-time.After(50 * time.Millisecond):
+		case <-ctx.Done():
+			return ctx.Err()
+		}
+		b.mu.Lock()
+		b.indexSaves++
+		b.mu.Unlock()
+		return b.Backend.Save(ctx, h, rd)
+	case backend.PackFile:
+		err := b.Backend.Save(ctx, h, rd)
+		b.mu.Lock()
+		b.packSaves++
+		close(b.packDone)
+		b.packDone = make(chan struct{})
+		b.mu.Unlock()
+		return err
+	}
+	return b.Backend.Save(ctx, h, rd)
+}
+
+func (b *vGateBeC16) quiesce(max time.Duration) {
+	deadline := time.Now().Add(max)
+	idle := 0
+	for time.Now().Before(deadline) && idle < 3 {
+		b.mu.Lock()
+		n := b.inflight
+		b.mu.Unlock()
+		if n == 0 {
+			idle++
+		} else {
+			idle = 0
+		}
+		time.Sleep(time.Millisecond)
+	}
+}
+
+func vMidSessionCaseC16(t *rapid.T, st *verifkit.Stats, dec *zstd.Decoder, version uint) {
+	ctx := context.Background()
+	gbe := &vGateBeC16{Backend: mem.New(), packDone: make(chan struct{})}
+	opts := Options{Compression: CompressionOff, PackSize: MinPackSize}
+	repo, err := New(gbe, opts)
+	if err != nil {
+		t.Fatal(err)
+	}
+	pol := testChunkerPol
+	if err := repo.Init(ctx, version, "pw", &pol); err != nil {
+		t.Fatal(err)
+	}
+	repo.packerCount = rapid.SampledFrom([]int{1, 2, 2}).Draw(t, "packers")
+	fullFrom := uint(rapid.SampledFrom([]int{1, 2, 2, 3, 3, 4, 6}).Draw(t, "indexFullFrom"))
+	index.Full = func(idx *index.Index) bool {
+		return idx.Len(restic.DataBlob)+idx.Len(restic.TreeBlob) >= fullFrom
+	}
+
+	n := rapid.IntRange(6, 12).Draw(t, "blobs")
+	seed := rapid.Uint64().Draw(t, "seed")
+	blobs := make([]*vBlobC16, n)
+	for i := range blobs {
+		b := &vBlobC16{tpe: restic.DataBlob}
+		size := rapid.IntRange(1<<20, 2<<20).Draw(t, "size")
+		if rapid.IntRange(0, 5).Draw(t, "smalltree") == 0 {
+			b.tpe = restic.TreeBlob
+			size = rapid.IntRange(100, 5000).Draw(t, "treesize")
+		}
+		var s [32]byte
+		s[0], s[1], s[2], s[3], s[4], s[5], s[6], s[7] = byte(seed), byte(seed>>8), byte(seed>>16), byte(seed>>24), byte(seed>>32), byte(seed>>40), byte(seed>>48), byte(seed>>56)
+		s[8] = byte(i)
+		b.plain = make([]byte, size)
+		_, _ = rand.NewChaCha8(s).Read(b.plain)
+		b.id = restic.Hash(b.plain)
+		blobs[i] = b
+	}
+	savers := rapid.IntRange(2, 8).Draw(t, "savers")
+	owner := make([]int, n)
+	for i := range owner {
+		owner[i] = rapid.IntRange(0, savers-1).Draw(t, "owner")
+	}
+	nullID := rapid.IntRange(0, 3).Draw(t, "resubmitWithNullID") == 0
+	rounds := rapid.IntRange(1, 2).Draw(t, "rounds")
+
+	type res struct {
+		blob, saver, round int
+		known              bool
+		err                error
+	}
+	var mu sync.Mutex
+	var first, again []res
+	serr := repo.WithBlobUploader(ctx, func(ctx context.Context, up restic.BlobSaverWithAsync) error {
+		var wg sync.WaitGroup
+		for w := 0; w < savers; w++ {
+			wg.Add(1)
+			go func(w int) {
+				defer wg.Done()
+				for i, b := range blobs {
+					if owner[i] != w {
+						continue
+					}
+					_, known, _, err := up.SaveBlob(ctx, b.tpe, b.plain, restic.ID{}, false)
+					mu.Lock()
+					first = append(first, res{blob: i, saver: w, known: known, err: err})
+					mu.Unlock()
+				}
+			}(w)
+		}
+		wg.Wait()
+		for r := 0; r < rounds; r++ {
+			// let the queued packs and intermediate index files finish
+			gbe.quiesce(400 * time.Millisecond)
+			for w := 0; w < savers; w++ {
+				wg.Add(1)
+				go func(w int) {
+					defer wg.Done()
+					for k := range blobs {
+						i := (k + w) % n
+						b := blobs[i]
+						id := b.id
+						if nullID {
+							id = restic.ID{}
+						}
+						_, known, _, err := up.SaveBlob(ctx, b.tpe, b.plain, id, false)
+						mu.Lock()
+						again = append(again, res{blob: i, saver: w, round: r, known: known, err: err})
+						mu.Unlock()
+					}
+				}(w)
+			}
+			wg.Wait()
+		}
+		return nil
+	})
+	if serr != nil {
+		t.Fatalf("upload session failed on a healthy backend: %v", serr)
+	}
+	gbe.mu.Lock()
+	packSaves, indexSaves, overlapped := gbe.packSaves, gbe.indexSaves, gbe.overlapped
+	gbe.mu.Unlock()
+	desc := fmt.Sprintf("mid-session version=%d blobs=%d savers=%d packers=%d indexFullFrom=%d rounds=%d packs=%d indexfiles=%d overlapped=%d",
+		version, n, savers, repo.packerCount, fullFrom, rounds, packSaves, indexSaves, overlapped)
+
+	for _, r := range first {
+		if r.err != nil || r.known {
+			t.Fatalf("first submission of blob %d by saver %d: known=%v err=%v [%s]", r.blob, r.saver, r.known, r.err, desc)
+		}
+	}
+	if len(first) != n {
+		t.Fatalf("harness: %d first submissions for %d blobs", len(first), n)
+	}
+	for _, r := range again {
+		if r.err != nil {
+			t.Fatalf("resubmission of blob %d: %v", r.blob, r.err)
+		}
+		if !r.known {
+			bh := restic.BlobHandle{ID: blobs[r.blob].id, Type: blobs[r.blob].tpe}
+			t.Fatalf("blob %d (%v, %d bytes) was saved earlier in the same session, its resubmission (round %d, saver %d) was answered 'not known' [%s]",
+				r.blob, bh, len(blobs[r.blob].plain), r.round, r.saver, desc)
+		}
+	}
+	occ, err := vWalkPacksC16(ctx, gbe, repo, dec)
+	if err != nil {
+		t.Fatal(err)
+	}
+	fresh, err := New(gbe, opts)
+	if err != nil {
+		t.Fatal(err)
+	}
+	if err := fresh.SearchKey(ctx, "pw", 1, ""); err != nil {
+		t.Fatal(err)
+	}
+	if err := fresh.LoadIndex(ctx, restic.NoopTerminalCounterFactory); err != nil {
+		t.Fatal(err)
+	}
+	for i, b := range blobs {
+		bh := restic.BlobHandle{ID: b.id, Type: b.tpe}
+		if len(occ[bh]) != 1 {
+			t.Fatalf("blob %d (%v, %d bytes) is stored %d times, in packs %v [%s]", i, bh, len(b.plain), len(occ[bh]), occ[bh], desc)
+		}
+		for name, r := range map[string]*Repository{"session": repo, "freshly loaded": fresh} {
+			pbs := r.LookupBlob(bh)
+			if len(pbs) != 1 {
+				t.Fatalf("blob %d (%v): %d entries in the %s index, want 1 [%s]", i, bh, len(pbs), name, desc)
+			}
+			if pbs[0].PackID() != occ[bh][0] {
+				t.Fatalf("blob %d (%v): %s index points to pack %v, blob is in %v", i, bh, name, pbs[0].PackID(), occ[bh][0])
+			}
+		}
+	}
+	if len(occ) != n {
+		t.Fatalf("packs hold %d distinct blobs, %d were submitted [%s]", len(occ), n, desc)
+	}
+	nIdx := 0
+	if err := fresh.ListBlobs(ctx, func(restic.PackBlob) { nIdx++ }); err != nil {
+		t.Fatal(err)
+	}
+	if nIdx != n {
+		t.Fatalf("freshly loaded index lists %d entries for %d distinct blobs [%s]", nIdx, n, desc)
+	}
+
+	key := ""
+	if overlapped > 0 && indexSaves >= 2 {
+		key = desc + fmt.Sprint(seed)
+	}
+	st.Case(key, "part=storm-midsession", fmt.Sprintf("storm:intermediate-index=%v", indexSaves >= 2),
+		fmt.Sprintf("storm:index-upload-overlapped-pack-upload=%v", overlapped > 0), fmt.Sprintf("storm:packs-before-flush>=2=%v", packSaves >= 3),
+		fmt.Sprintf("storm:indexFullFrom=%d", fullFrom))
+	if st.WantSample() {
+		st.Sample(map[string]any{"case": desc})
+	}
 }
